@@ -140,7 +140,12 @@ def tsan_payload_reports(job):
                 continue
             # innermost frames of the two accesses are the '#0' lines of the first two stacks
             tops = re.findall(r'#0 [^\n]*', rep)[:2]
-            if any(('cdsv::payload_' in t or 'cdsv::cs_touch' in t) for t in tops):
+            # BOTH racing accesses must be harness payload accesses (a payload read racing with libcds' own free/reuse of a node is
+            # TSan's blindness to the fence-based reclamation protocols, not a missing edge for user data)
+            # A harness access = cdsv::payload_* / cdsv::cs_touch, or any innermost frame whose source file is harness code (the
+            # intrusive variants read and write the user's item directly in the harness).
+            hdirs = (os.path.join(VERIF, 'harness') + os.sep, os.path.join(VERIF, 'include', 'cdsv') + os.sep)
+            if len(tops) == 2 and all(('cdsv::payload_' in t or 'cdsv::cs_touch' in t or any(h in t for h in hdirs)) for t in tops):
                 payload.append('WARNING: ThreadSanitizer:' + rep[:3000])
     return total, payload
 
